@@ -157,7 +157,7 @@ def check_theorems(theorem_file):
     rc, out = sh('timeout 900 coqc -Q . TL %s' % theorem_file, cwd=COQ_DIR, timeout=1000)
     ok = rc == 0
     # Print Assumptions output: either "Closed under the global context" or "Axioms:" followed by lines
-    axioms = sorted(set(re.findall(r'^([A-Za-z_][A-Za-z0-9_\.\']*)\s*:', out, re.M)))
+    axioms = sorted(set(re.findall(r'^([A-Za-z_][A-Za-z0-9_\.\']*)\s*:', out, re.M)) - {'Axioms'})
     closed = out.count('Closed under the global context')
     return {'file': theorem_file, 'theorems': names, 'examples': examples, 'ok': ok, 'axioms': axioms, 'closed': closed,
             'n_print_assumptions': len(re.findall(r'Print Assumptions', src)), 'tail': out[-1500:] if not ok else ''}
@@ -288,6 +288,11 @@ def main(prop, tier='quick', seed=None, replay=None):
     built, build_out = ensure_built()
     hyg = hygiene()
     thm = check_theorems(mod.THEOREM_FILE) if built else {'file': mod.THEOREM_FILE, 'theorems': [], 'examples': [], 'ok': False, 'axioms': [], 'closed': 0, 'n_print_assumptions': 0, 'tail': build_out}
+    # thorough tier: the independent checker re-checks the compiled theorem file and everything it depends on (runs beside the streams)
+    chk_proc = None; chk = None
+    if built and tier == 'thorough' and not replay:
+        chk_proc = subprocess.Popen('exec timeout 3000 coqchk -o -silent -Q . TL TL.%s' % mod.THEOREM_FILE[:-2].replace('/', '.'), shell=True,
+                                    stdout=subprocess.PIPE, stderr=subprocess.STDOUT, text=True, cwd=COQ_DIR)
     findings = load_findings(prop)
     open_keys = {f['key']: f for f in findings if f.get('status') == 'open'}
 
@@ -354,6 +359,13 @@ def main(prop, tier='quick', seed=None, replay=None):
 
         # ------------------------------------------------------------------ verdict
         verdict = None; replay_cases = []; reason = None
+        if chk_proc is not None:
+            cout, _ = chk_proc.communicate()
+            m = re.search(r'\* Axioms:(.*?)\n\s*\n\* Constants', cout, re.S)
+            chk = {'ok': chk_proc.returncode == 0 and 'type-in-type: <none>' in cout and 'unsafe (co)fixpoints: <none>' in cout and 'positivity is assumed: <none>' in cout,
+                   'axioms': [l.strip() for l in (m.group(1) if m else '').split('\n') if l.strip() and l.strip() != '<none>'], 'tail': cout[-600:]}
+            if not chk['ok']:
+                thm['ok'] = False; thm['tail'] = 'coqchk: ' + chk['tail']
         proof_ok = built and thm['ok'] and not hyg
         if new_fail:
             new_fail.sort(key=lambda f: (not f['in_disagreement'], len(json.dumps(f['case'], default=str))))
@@ -429,7 +441,8 @@ def main(prop, tier='quick', seed=None, replay=None):
                        'samples': samples[:6], 'streams': streams_ev,
                        'model_disagreements': len(disagreements), 'oracle_failures_outside_known_findings': len(new_fail),
                        'known_finding_hits': {k: len(v) for k, v in known_hit.items()},
-                       'hygiene_hits': hyg[:5], 'exhaustive': False},
+                       'hygiene_hits': hyg[:5], 'exhaustive': False,
+                       'coqchk': ({'ok': chk['ok'], 'axioms_of_all_loaded_libraries': chk['axioms']} if chk else 'not run in this tier (thorough only)')},
           'assumptions': list(getattr(mod, 'NOTES', [])) + ['the correspondence is sampling: it never stands in for a theorem'],
           'wall_s': round(time.time() - t0, 2), 'violations': 0 if verdict is None else 1}
     os.makedirs(os.path.join(VERIF, 'evidence'), exist_ok=True)
